@@ -143,7 +143,7 @@ class Case:
         return '%s{%s}' % (self.gotype(t, frompkg, used), self.valexpr(inner, tok + '[0]', frompkg, used))
 
     def if_closure(self, i):
-        out = [i]
+        out = [] if self.atoms[i].get('go') == 'noown' else [i]
         for j in self.atoms[i]['embeds']:
             for k in self.if_closure(j):
                 if k not in out:
@@ -185,7 +185,8 @@ class Case:
                 body.append('func Mk%s(tok string) %s { _ = tok; return %s{%s} }\n' % (i, i, i, ', '.join(ini)))
             elif at['kind'] == 'iface':
                 emb = ''.join('\t%s\n' % self.gotype(j, pkg, used) for j in at['embeds'])
-                body.append('type %s interface {\n%s\tM%s()\n}\n' % (i, emb, i))
+                own = '' if at.get('go') == 'noown' else '\tM%s()\n' % i
+                body.append('type %s interface {\n%s%s}\n' % (i, emb, own))
                 body.append('type X%s struct{ Tok string }\n' % i)
                 for j in self.if_closure(i):
                     body.append('func (X%s) M%s() {}\n' % (i, j))
@@ -345,7 +346,13 @@ class Case:
             body.append('var %s = %s\n' % (', '.join(n for n, _ in lst), ', '.join(i for _, i in lst)))
         if not body:
             return None
-        return 'package %s\n\n%s%s' % (self.goname(pkg), self.imports(pkg, used, ['"github.com/google/wire"']), '\n'.join(body))
+        return self.dotwire('package %s\n\n%s%s' % (self.goname(pkg), self.imports(pkg, used, ['"github.com/google/wire"']), '\n'.join(body)))
+
+    def dotwire(self, txt):
+        """the same file with the wire package dot-imported (program option dotwire)"""
+        if not (self.P.get('opts') or {}).get('dotwire'):
+            return txt
+        return txt.replace('\t"github.com/google/wire"', '\t. "github.com/google/wire"').replace('wire.', '')
 
     def inj_sig(self, inj, pkg, used, named=True):
         params = []
@@ -372,8 +379,8 @@ class Case:
                 items = [self.item_expr(it, 'a', used) for it in inj['items']]
                 body.append('func %s(%s) %s {\n\tpanic(wire.Build(%s))\n}\n' % (inj['name'], ', '.join(params), r, ', '.join(items)))
             name = 'wire.go' if fno == 1 else 'wire_%d.go' % fno
-            out[name] = ('//go:build wireinject\n// +build wireinject\n\npackage %s\n\n%s%s'
-                         % (self.pkgname, self.imports('a', used, ['"github.com/google/wire"']), '\n'.join(body)))
+            out[name] = self.dotwire('//go:build wireinject\n// +build wireinject\n\npackage %s\n\n%s%s'
+                                     % (self.pkgname, self.imports('a', used, ['"github.com/google/wire"']), '\n'.join(body)))
         return out
 
     def drive_file(self, runtime=True):
